@@ -6,8 +6,9 @@ From Pygls Require Import Model.Client Spec.ClientSpec.
 Import ListNotations.
 Open Scope N_scope.
 
-(* the repaired code: row 9 (run_async) and row 6 (wrapped error handler) *)
-Definition good (c : config) : Prop := fix_eof c = true /\ fix_wrap c = true.
+(* the repaired code: row 9 (run_async), row 6 (wrapped error handler), and the exit watcher
+   cancelling handler tasks instead of calling set_exception on them *)
+Definition good (c : config) : Prop := fix_eof c = true /\ fix_wrap c = true /\ fix_task c = true.
 
 Lemma run_from_app : forall c s a b, run_from c s (a ++ b) = run_from c (run_from c s a) b.
 Proof. intros. unfold run_from. apply fold_left_app. Qed.
@@ -57,6 +58,53 @@ Proof.
     replace (i =? j) with false by (symmetry; apply N.eqb_neq; exact H). reflexivity.
   - cbn [mem]. rewrite IH by exact H. reflexivity.
 Qed.
+
+(* the table restricted to this side's requests *)
+Fixpoint own_ids (es : list entry) : list id :=
+  match es with
+  | [] => []
+  | Own i :: r => i :: own_ids r
+  | HTask _ :: r => own_ids r
+  end.
+
+Lemma memo_own : forall i es, memo i es = mem i (own_ids es).
+Proof.
+  induction es as [|[k|k] r IH]; cbn [memo own_ids mem is_own]; [reflexivity| |].
+  - rewrite IH. reflexivity.
+  - rewrite IH. reflexivity.
+Qed.
+
+Lemma own_remove_own : forall i es, own_ids (remove_own i es) = remove i (own_ids es).
+Proof.
+  induction es as [|[k|k] r IH]; cbn [remove_own own_ids remove is_own]; [reflexivity| |].
+  - destruct (k =? i); [reflexivity|]. cbn [own_ids]. rewrite IH. reflexivity.
+  - cbn [own_ids]. exact IH.
+Qed.
+
+Lemma own_remove_task : forall j es, own_ids (remove_task j es) = own_ids es.
+Proof.
+  induction es as [|[k|k] r IH]; cbn [remove_task own_ids is_task]; [reflexivity| |].
+  - cbn [own_ids]. rewrite IH. reflexivity.
+  - destruct (k =? j); [reflexivity|]. cbn [own_ids]. exact IH.
+Qed.
+
+Lemma own_app : forall a b, own_ids (a ++ b) = own_ids a ++ own_ids b.
+Proof.
+  induction a as [|[k|k] r IH]; intros b; cbn [app own_ids]; [reflexivity| |].
+  - rewrite IH. reflexivity.
+  - apply IH.
+Qed.
+
+(* the fail loop on this side's requests alone *)
+Fixpoint fail_all (rc : Z) (ids : list id) (f : list (id * fstate)) : list (id * fstate) :=
+  match ids with
+  | [] => f
+  | i :: r =>
+    match aget f i with
+    | Some Pending => fail_all rc r (aset f i (FailedExit rc))
+    | _ => fail_all rc r f
+    end
+  end.
 
 (* ------------------------------------------------------------------------------------ *)
 (* futures: the order "nothing is lost, done futures keep their state"                   *)
@@ -153,6 +201,53 @@ Proof.
     replace (k =? i) with false by (symmetry; apply N.eqb_neq; exact Hne). exact H.
 Qed.
 
+(* the loop as coded, with the handler tasks in the table *)
+Lemma fail_loop_le : forall c rc es f h,
+  le f (fst (fst (fail_loop c rc es f h))) /\ nopend f (fst (fst (fail_loop c rc es f h))).
+Proof.
+  intros c rc. induction es as [|[i|j] r IH]; intros f h; cbn [fail_loop].
+  - split; [apply le_refl|apply nopend_refl].
+  - destruct (aget f i) as [[| | | |]|] eqn:E; try apply IH.
+    destruct (IH (aset f i (FailedExit rc)) h) as [A B]. split.
+    + eapply le_trans; [apply le_aset_pending; exact E|exact A].
+    + eapply nopend_trans; [apply (nopend_aset f i (FailedExit rc)); discriminate|exact B].
+  - destruct (hget h j) as [st|]; [|apply IH].
+    destruct (h_done st); [apply IH|]. destruct (fix_task c); [apply IH|].
+    split; [apply le_refl|apply nopend_refl].
+Qed.
+
+(* repaired: the loop visits every entry, never raises, and does to this side's futures what
+   fail_all does *)
+Lemma fail_loop_fixed : forall c rc es f h, fix_task c = true ->
+  fst (fst (fail_loop c rc es f h)) = fail_all rc (own_ids es) f /\
+  snd (fail_loop c rc es f h) = false.
+Proof.
+  intros c rc es f h T. revert f h.
+  induction es as [|[i|j] r IH]; intros f h; cbn [fail_loop own_ids fail_all].
+  - split; reflexivity.
+  - destruct (aget f i) as [[| | | |]|]; apply IH.
+  - destruct (hget h j) as [st|]; [|apply IH]. destruct (h_done st); [apply IH|].
+    rewrite T. apply IH.
+Qed.
+
+Lemma fail_loop_noraise_futs : forall c rc es f h,
+  snd (fail_loop c rc es f h) = false ->
+  fst (fst (fail_loop c rc es f h)) = fail_all rc (own_ids es) f.
+Proof.
+  intros c rc. induction es as [|[i|j] r IH]; intros f h; cbn [fail_loop own_ids fail_all].
+  - reflexivity.
+  - destruct (aget f i) as [[| | | |]|]; apply IH.
+  - destruct (hget h j) as [st|]; [|apply IH]. destruct (h_done st); [apply IH|].
+    destruct (fix_task c); [apply IH|]. cbn. discriminate.
+Qed.
+
+Lemma fail_loop_raised : forall c rc es f h,
+  snd (fail_loop c rc es f h) = true -> fix_task c = false.
+Proof.
+  intros c rc es f h H. destruct (fix_task c) eqn:T; [|reflexivity].
+  destruct (fail_loop_fixed c rc es f h T) as [_ B]. rewrite B in H. discriminate.
+Qed.
+
 (* ------------------------------------------------------------------------------------ *)
 (* the reader task                                                                      *)
 (* ------------------------------------------------------------------------------------ *)
@@ -191,7 +286,7 @@ Proof.
 Qed.
 
 Definition pend_in_rf (s : state) : Prop :=
-  forall i, aget (futs s) i = Some Pending -> mem i (rf s) = true.
+  forall i, aget (futs s) i = Some Pending -> mem i (own_ids (rf s)) = true.
 
 Section Reader.
 Variable c : config.
@@ -224,20 +319,21 @@ Qed.
 
 Lemma handle_item_ctl : forall s it, ctl_eq s (handle_item c s it).
 Proof.
-  intros s it. unfold ctl_eq. destruct it; cbn [handle_item]; unfold handle_reply, call_error_handler;
-    split_ifs; cbn; repeat split.
+  intros s it. unfold ctl_eq. destruct it; cbn [handle_item];
+    unfold handle_reply, call_error_handler, handle_request; split_ifs; cbn; repeat split.
 Qed.
 
 Lemma handle_item_futs : forall s it, futs_ok s (handle_item c s it).
 Proof.
   intros s it. destruct it; cbn [handle_item]; unfold handle_reply, call_error_handler.
-  - destruct (mem i (rf s)); [|split_ifs; (split; cbn; [apply le_refl|apply nopend_refl])].
+  - destruct (memo i (rf s)); [|split_ifs; (split; cbn; [apply le_refl|apply nopend_refl])].
     cbn [futs set_rf]. destruct (aget (futs s) i) as [[| | | |]|] eqn:E;
       try (split_ifs; (split; cbn; [apply le_refl|apply nopend_refl])).
     split; cbn [futs set_futs set_rf].
     + apply le_aset_pending; exact E.
     + apply nopend_aset. destruct r; discriminate.
   - split_ifs; (split; cbn; [apply le_refl|apply nopend_refl]).
+  - unfold handle_request. split_ifs; (split; cbn; [apply le_refl|apply nopend_refl]).
   - split_ifs; (split; cbn; [apply le_refl|apply nopend_refl]).
   - (split; cbn; [apply le_refl|apply nopend_refl]).
 Qed.
@@ -245,22 +341,25 @@ Qed.
 Lemma handle_item_pend : forall s it, pend_in_rf s -> pend_in_rf (handle_item c s it).
 Proof.
   intros s it H. destruct it; cbn [handle_item]; unfold handle_reply, call_error_handler.
-  - destruct (mem i (rf s)) eqn:M; [|split_ifs; exact H].
+  - destruct (memo i (rf s)) eqn:M; [|split_ifs; exact H].
+    assert (K : forall s', futs s' = futs s -> rf s' = remove_own i (rf s) ->
+                (forall j, aget (futs s') j = Some Pending -> j <> i) -> pend_in_rf s').
+    { intros s' F R Ne j Hj. rewrite R, own_remove_own, mem_remove_neq.
+      - apply H. rewrite <- F. exact Hj.
+      - intros ->. exact (Ne j Hj eq_refl). }
     cbn [futs set_rf]. destruct (aget (futs s) i) as [[| | | |]|] eqn:E.
     + intros j. cbn [futs rf set_futs set_rf]. rewrite aget_aset. destruct (i =? j) eqn:F.
       * rewrite E. destruct r; discriminate.
-      * intros Hj. rewrite mem_remove_neq; [apply H, Hj|apply N.eqb_neq, F].
-    + split_ifs; intros j Hj; cbn in *;
-        (destruct (N.eq_dec i j) as [->|Hne]; [congruence|rewrite mem_remove_neq by exact Hne; apply H, Hj]).
-    + split_ifs; intros j Hj; cbn in *;
-        (destruct (N.eq_dec i j) as [->|Hne]; [congruence|rewrite mem_remove_neq by exact Hne; apply H, Hj]).
-    + split_ifs; intros j Hj; cbn in *;
-        (destruct (N.eq_dec i j) as [->|Hne]; [congruence|rewrite mem_remove_neq by exact Hne; apply H, Hj]).
-    + split_ifs; intros j Hj; cbn in *;
-        (destruct (N.eq_dec i j) as [->|Hne]; [congruence|rewrite mem_remove_neq by exact Hne; apply H, Hj]).
-    + split_ifs; intros j Hj; cbn in *;
-        (destruct (N.eq_dec i j) as [->|Hne]; [congruence|rewrite mem_remove_neq by exact Hne; apply H, Hj]).
+      * intros Hj. rewrite own_remove_own, mem_remove_neq; [apply H, Hj|apply N.eqb_neq, F].
+    + split_ifs; (apply K; [reflexivity|reflexivity|intros j Hj ->; cbn in Hj; congruence]).
+    + split_ifs; (apply K; [reflexivity|reflexivity|intros j Hj ->; cbn in Hj; congruence]).
+    + split_ifs; (apply K; [reflexivity|reflexivity|intros j Hj ->; cbn in Hj; congruence]).
+    + split_ifs; (apply K; [reflexivity|reflexivity|intros j Hj ->; cbn in Hj; congruence]).
+    + split_ifs; (apply K; [reflexivity|reflexivity|intros j Hj ->; cbn in Hj; congruence]).
   - split_ifs; exact H.
+  - unfold handle_request. destruct (hget (htasks s) j); [exact H|].
+    intros k Hk. cbn [futs rf set_htasks set_rf] in *. rewrite own_app. cbn [own_ids].
+    rewrite app_nil_r. apply H, Hk.
   - split_ifs; exact H.
   - exact H.
 Qed.
@@ -268,8 +367,8 @@ Qed.
 (* under the wrapped error handler an item never kills the reader *)
 Lemma handle_item_reader : forall s it, fix_wrap c = true -> reader (handle_item c s it) = reader s.
 Proof.
-  intros s it W. destruct it; cbn [handle_item]; unfold handle_reply, call_error_handler; rewrite ?W;
-    split_ifs; reflexivity.
+  intros s it W. destruct it; cbn [handle_item]; unfold handle_reply, call_error_handler, handle_request;
+    rewrite ?W; split_ifs; reflexivity.
 Qed.
 
 (* an item that is not a reply to request i leaves future i and its table entry alone *)
@@ -279,15 +378,17 @@ Definition not_reply_to (i : id) (it : item) : bool :=
 Lemma handle_item_other : forall s it i,
   not_reply_to i it = true ->
   aget (futs (handle_item c s it)) i = aget (futs s) i /\
-  mem i (rf (handle_item c s it)) = mem i (rf s).
+  mem i (own_ids (rf (handle_item c s it))) = mem i (own_ids (rf s)).
 Proof.
   intros s it i N. destruct it; cbn [handle_item not_reply_to] in *;
     unfold handle_reply, call_error_handler.
   - apply negb_true_iff, N.eqb_neq in N.
     split_ifs; cbn; try rewrite aget_aset;
       try (replace (i0 =? i) with false by (symmetry; apply N.eqb_neq; exact N));
-      split; try reflexivity; try (apply mem_remove_neq; exact N).
+      split; try reflexivity; try (rewrite own_remove_own; apply mem_remove_neq; exact N).
   - split_ifs; cbn; split; reflexivity.
+  - unfold handle_request. destruct (hget (htasks s) j); [split; reflexivity|].
+    cbn. rewrite own_app. cbn [own_ids]. rewrite app_nil_r. split; reflexivity.
   - split_ifs; cbn; split; reflexivity.
   - split; reflexivity.
 Qed.
@@ -326,7 +427,7 @@ Hypothesis G : good c.
 Lemma consume_noraise : forall p s,
   (forall e, reader s <> RRaised e) -> forall e, reader (consume c p s) <> RRaised e.
 Proof.
-  destruct G as [Ge Gw].
+  destruct G as (Ge & Gw & Gt).
   induction p as [|it p IH]; intros s H e; cbn [consume].
   - destruct (stopped s); [cbn; discriminate|]. destruct (proc s); [cbn; discriminate|].
     unfold at_eof. rewrite Ge. destruct (tl s); cbn; discriminate.
@@ -351,7 +452,7 @@ Qed.
 Lemma consume_exited_ends : forall p s rc,
   proc s = Exited rc -> (forall e, reader s <> RRaised e) -> reader (consume c p s) = REnded.
 Proof.
-  destruct G as [Ge Gw].
+  destruct G as (Ge & Gw & Gt).
   induction p as [|it p IH]; intros s rc P H; cbn [consume].
   - destruct (stopped s); [reflexivity|]. rewrite P. unfold at_eof. rewrite Ge.
     destruct (tl s); reflexivity.
@@ -383,14 +484,14 @@ Definition no_reply_to (i : id) (p : list item) : bool := forallb (not_reply_to 
 
 Lemma handle_item_pipe : forall c s it, pipe (handle_item c s it) = pipe s.
 Proof.
-  intros c s it. destruct it; cbn [handle_item]; unfold handle_reply, call_error_handler;
+  intros c s it. destruct it; cbn [handle_item]; unfold handle_reply, call_error_handler, handle_request;
     split_ifs; reflexivity.
 Qed.
 
 Lemma consume_other : forall c i p s,
   no_reply_to i p = true -> no_reply_to i (pipe s) = true ->
   aget (futs (consume c p s)) i = aget (futs s) i /\
-  mem i (rf (consume c p s)) = mem i (rf s) /\
+  mem i (own_ids (rf (consume c p s))) = mem i (own_ids (rf s)) /\
   no_reply_to i (pipe (consume c p s)) = true.
 Proof.
   intros c i. induction p as [|it p IH]; intros s N Q; cbn [consume].
@@ -414,7 +515,7 @@ Qed.
 Lemma reader_run_other : forall c i s,
   no_reply_to i (pipe s) = true ->
   aget (futs (reader_run c s)) i = aget (futs s) i /\
-  mem i (rf (reader_run c s)) = mem i (rf s) /\
+  mem i (own_ids (rf (reader_run c s))) = mem i (own_ids (rf s)) /\
   no_reply_to i (pipe (reader_run c s)) = true.
 Proof.
   intros c i s Q. unfold reader_run. destruct (reader s); auto.
@@ -424,9 +525,6 @@ Proof.
     + exact (consume_other c i (pipe s) (set_pipe s []) Q eq_refl).
 Qed.
 
-(* ------------------------------------------------------------------------------------ *)
-(* one step                                                                             *)
-(* ------------------------------------------------------------------------------------ *)
 (* ------------------------------------------------------------------------------------ *)
 (* the exit watcher                                                                     *)
 (* ------------------------------------------------------------------------------------ *)
@@ -460,23 +558,41 @@ Qed.
 Definition needs (c : config) : nat :=
   match hook c with HookSlow | HookAwaits => 2 | _ => 1 end.
 
-(* the state after the fail loop, on entry into the hook *)
-Definition entered (s : state) (rc : Z) : state :=
-  set_hook_calls (set_futs s (fail_all rc (rf s) (futs s)))
-    (hook_calls s ++ [(rc, all_done (fail_all rc (rf s) (futs s))
-                              (map fst (fail_all rc (rf s) (futs s))))]).
+(* the fail loop of the exit watcher in state s *)
+Definition looped (c : config) (s : state) (rc : Z) :=
+  fail_loop c rc (rf s) (futs s) (htasks s).
+
+(* the state after the fail loop *)
+Definition after_loop (c : config) (s : state) (rc : Z) : state :=
+  set_htasks (set_futs s (fst (fst (looped c s rc)))) (snd (fst (looped c s rc))).
+
+(* ... and on entry into the hook *)
+Definition entered (c : config) (s : state) (rc : Z) : state :=
+  set_hook_calls (after_loop c s rc)
+    (hook_calls s ++ [(rc, all_done (fst (fst (looped c s rc))) (map fst (fst (fst (looped c s rc)))))]).
 
 Lemma server_exit_enter : forall c s rc,
-  xtask s = XWaiting -> proc s = Exited rc ->
-  server_exit_task c s = finish_exit (entered s rc) \/
+  xtask s = XWaiting -> proc s = Exited rc -> snd (looped c s rc) = false ->
+  server_exit_task c s = finish_exit (entered c s rc) \/
   (server_exit_task c s =
-     set_xtask (entered s rc) (XInHook rc (map fst (fail_all rc (rf s) (futs s)))) /\
+     set_xtask (entered c s rc) (XInHook rc (map fst (fst (fst (looped c s rc))))) /\
    needs c = 2%nat).
 Proof.
-  intros c s rc X P. unfold server_exit_task, needs. rewrite X, P. cbn [futs set_futs hook_calls].
+  intros c s rc X P R. unfold server_exit_task, needs, entered, after_loop. rewrite X, P.
+  unfold looped in *. destruct (fail_loop c rc (rf s) (futs s) (htasks s)) as [[f1 h1] r].
+  cbn [fst snd] in *. subst r. cbn [futs set_futs set_htasks hook_calls].
   destruct (hook c); [left; reflexivity|left; reflexivity|right; split; reflexivity|].
-  unfold entered.
-  destruct (map fst (fail_all rc (rf s) (futs s))) eqn:E; [left; reflexivity|right; split; reflexivity].
+  destruct (map fst f1) eqn:E; [left; reflexivity|right; split; reflexivity].
+Qed.
+
+(* unrepaired code only: the loop met a handler task that is not done *)
+Lemma server_exit_raise : forall c s rc,
+  xtask s = XWaiting -> proc s = Exited rc -> snd (looped c s rc) = true ->
+  server_exit_task c s = set_xtask (after_loop c s rc) (XRaised ExTaskSetException).
+Proof.
+  intros c s rc X P R. unfold server_exit_task, after_loop. rewrite X, P.
+  unfold looped in *. destruct (fail_loop c rc (rf s) (futs s) (htasks s)) as [[f1 h1] r].
+  cbn [fst snd] in *. subst r. reflexivity.
 Qed.
 
 Lemma server_exit_resume : forall c s rc ids,
@@ -488,7 +604,7 @@ Proof.
   destruct (hook c); auto. destruct (all_done (futs s) ids); auto.
 Qed.
 
-(* what no run of the exit watcher touches, and what it does to the futures *)
+(* what no run of the exit watcher touches, and what it does to the futures (any code variant) *)
 Lemma server_exit_frame : forall c s,
   futs_ok s (server_exit_task c s) /\ rf (server_exit_task c s) = rf s /\
   proc (server_exit_task c s) = proc s /\ reader (server_exit_task c s) = reader s /\
@@ -497,11 +613,42 @@ Proof.
   intros c s. destruct (xtask s) eqn:X.
   - destruct (proc s) eqn:P.
     + unfold server_exit_task. rewrite X, P. split; [apply futs_ok_refl|repeat split; exact P].
-    + destruct (server_exit_enter c s rc X P) as [E|[E _]]; rewrite E; unfold futs_ok; cbn;
-        (split; [exact (fail_all_le rc (rf s) (futs s))|repeat split; exact P]).
+    + destruct (snd (looped c s rc)) eqn:R.
+      * rewrite (server_exit_raise c s rc X P R). unfold futs_ok, after_loop, looped; cbn.
+        split; [exact (fail_loop_le c rc (rf s) (futs s) (htasks s))|repeat split; exact P].
+      * destruct (server_exit_enter c s rc X P R) as [E|[E _]]; rewrite E;
+          unfold futs_ok, entered, after_loop, looped; cbn;
+          (split; [exact (fail_loop_le c rc (rf s) (futs s) (htasks s))|repeat split; exact P]).
   - destruct (server_exit_resume c s rc awaited X) as [E|[E _]]; rewrite E; unfold futs_ok; cbn;
       (split; [split; [apply le_refl|apply nopend_refl]|repeat split]).
   - unfold server_exit_task. rewrite X. split; [apply futs_ok_refl|repeat split].
+  - unfold server_exit_task. rewrite X. split; [apply futs_ok_refl|repeat split].
+Qed.
+
+(* repaired: the loop is fail_all on this side's requests and does not raise *)
+Lemma looped_fixed : forall c s rc, fix_task c = true ->
+  fst (fst (looped c s rc)) = fail_all rc (own_ids (rf s)) (futs s) /\ snd (looped c s rc) = false.
+Proof. intros c s rc T. apply fail_loop_fixed, T. Qed.
+
+(* a run of a handler task touches only its own table entry and its own state *)
+Lemma handler_step_frame : forall s j,
+  futs (handler_step s j) = futs s /\ own_ids (rf (handler_step s j)) = own_ids (rf s) /\
+  proc (handler_step s j) = proc s /\ reader (handler_step s j) = reader s /\
+  xtask (handler_step s j) = xtask s /\ stopped (handler_step s j) = stopped s /\
+  hook_calls (handler_step s j) = hook_calls s /\ pipe (handler_step s j) = pipe s.
+Proof.
+  intros s j. unfold handler_step. destruct (hget (htasks s) j) as [[| | |]|]; cbn;
+    rewrite ?own_remove_task; repeat split.
+Qed.
+
+Lemma handler_return_frame : forall s j,
+  futs (handler_return s j) = futs s /\ own_ids (rf (handler_return s j)) = own_ids (rf s) /\
+  proc (handler_return s j) = proc s /\ reader (handler_return s j) = reader s /\
+  xtask (handler_return s j) = xtask s /\ stopped (handler_return s j) = stopped s /\
+  hook_calls (handler_return s j) = hook_calls s /\ pipe (handler_return s j) = pipe s.
+Proof.
+  intros s j. unfold handler_return. destruct (hget (htasks s) j) as [[| | |]|]; cbn;
+    rewrite ?own_remove_task; repeat split.
 Qed.
 
 (* ------------------------------------------------------------------------------------ *)
@@ -517,6 +664,8 @@ Proof.
   - unfold proc_exit. destruct (proc s); cbn; apply le_refl.
   - apply reader_run_futs.
   - apply server_exit_frame.
+  - cbn [step]. destruct (handler_step_frame s j) as (A & _). rewrite A. apply le_refl.
+  - cbn [step]. destruct (handler_return_frame s j) as (A & _). rewrite A. apply le_refl.
   - cbn. apply le_refl.
 Qed.
 
@@ -540,6 +689,8 @@ Proof.
   - unfold proc_exit. rewrite P. exact P.
   - destruct (reader_run_ctl c s) as (A & _). rewrite A. exact P.
   - destruct (server_exit_frame c s) as (_ & _ & A & _). rewrite A. exact P.
+  - destruct (handler_step_frame s j) as (_ & _ & A & _). rewrite A. exact P.
+  - destruct (handler_return_frame s j) as (_ & _ & A & _). rewrite A. exact P.
   - exact P.
 Qed.
 
@@ -557,6 +708,8 @@ Proof.
   - unfold proc_exit. destruct (proc s); reflexivity.
   - contradiction.
   - apply server_exit_frame.
+  - apply handler_step_frame.
+  - apply handler_return_frame.
 Qed.
 
 Lemma step_reader_ended : forall c s e, reader s = REnded -> reader (step c s e) = REnded.
@@ -579,6 +732,8 @@ Proof.
   - unfold proc_exit. destruct (proc s); reflexivity.
   - destruct (reader_run_ctl c s) as (_ & _ & A & _). exact A.
   - contradiction.
+  - apply handler_step_frame.
+  - apply handler_return_frame.
 Qed.
 
 Lemma step_xtask_done : forall c s e, xtask s = XDone -> xtask (step c s e) = XDone.
@@ -603,6 +758,8 @@ Proof.
   - unfold proc_exit. destruct (proc s); split; auto.
   - destruct (reader_run_ctl c s) as (_ & _ & _ & A & B). rewrite A, B. split; auto.
   - contradiction.
+  - destruct (handler_step_frame s j) as (_ & _ & _ & _ & _ & A & B & _). rewrite A, B. split; auto.
+  - destruct (handler_return_frame s j) as (_ & _ & _ & _ & _ & A & B & _). rewrite A, B. split; auto.
   - split; reflexivity.
 Qed.
 
@@ -616,6 +773,7 @@ Definition Inv (c : config) (s : state) : Prop :=
   | XInHook rc ids =>
     proc s = Exited rc /\ hook_calls s = [(rc, true)] /\ all_done (futs s) ids = true
   | XDone => stopped s = true /\ exists rc, proc s = Exited rc /\ hook_calls s = [(rc, true)]
+  | XRaised _ => fix_task c = false         (* never in the repaired code *)
   end /\
   (good c -> forall e, reader s <> RRaised e).
 
@@ -630,7 +788,7 @@ Qed.
 Lemma step_pend : forall c s e, pend_in_rf s -> pend_in_rf (step c s e).
 Proof.
   intros c s e I1. destruct e; cbn [step].
-  - intros j Hj. cbn [futs rf do_send] in *. rewrite mem_app.
+  - intros j Hj. cbn [futs rf do_send] in *. rewrite own_app, mem_app. cbn [own_ids].
     destruct (aget (futs s) j) eqn:E.
     + rewrite (aget_app_some _ _ _ _ _ E) in Hj. rewrite I1; [reflexivity|congruence].
     + rewrite (aget_app_none _ _ _ _ E) in Hj. cbn [mem].
@@ -643,6 +801,10 @@ Proof.
   - apply reader_run_pend, I1.
   - destruct (server_exit_frame c s) as ((_ & B) & A & _).
     intros j Hj. rewrite A. apply I1, B, Hj.
+  - destruct (handler_step_frame s j) as (A & B & _).
+    intros k Hk. rewrite B. apply I1. rewrite <- A. exact Hk.
+  - destruct (handler_return_frame s j) as (A & B & _).
+    intros k Hk. rewrite B. apply I1. rewrite <- A. exact Hk.
   - exact I1.
 Qed.
 
@@ -664,6 +826,7 @@ Proof.
                         all_done (futs (step c s e)) ids = true
     | XDone => stopped (step c s e) = true /\
                exists rc, proc (step c s e) = Exited rc /\ hook_calls (step c s e) = [(rc, true)]
+    | XRaised _ => fix_task c = false
     end).
   { intros N. rewrite (step_xtask_other c s e N). destruct (step_other_mid c s e N) as [A B].
     rewrite A. destruct (xtask s).
@@ -671,20 +834,26 @@ Proof.
     - destruct I2 as (P & Hh & D). split; [apply step_proc_exited, P|split; [exact Hh|]].
       eapply all_done_le; [apply step_le|exact D].
     - destruct I2 as (St & rc & P & Hh). split; [apply B, St|].
-      exists rc. split; [apply step_proc_exited, P|exact Hh]. }
+      exists rc. split; [apply step_proc_exited, P|exact Hh].
+    - exact I2. }
   destruct e; try (apply Other; discriminate).
   cbn [step]. destruct (xtask s) eqn:X.
   - destruct (proc s) eqn:P.
     + unfold server_exit_task. rewrite X, P, X. exact I2.
-    + assert (D : all_done (fail_all rc (rf s) (futs s)) (map fst (fail_all rc (rf s) (futs s))) = true)
-        by (apply fail_all_all_done; exact I1).
-      destruct (server_exit_enter c s rc X P) as [E|[E _]]; rewrite E; cbn; rewrite I2, D.
-      * split; [reflexivity|]. exists rc. split; [exact P|reflexivity].
-      * split; [exact P|split; reflexivity].
+    + destruct (snd (looped c s rc)) eqn:R.
+      * rewrite (server_exit_raise c s rc X P R). cbn. apply (fail_loop_raised _ _ _ _ _ R).
+      * assert (D : all_done (fst (fst (looped c s rc))) (map fst (fst (fst (looped c s rc)))) = true).
+        { unfold looped in *. rewrite (fail_loop_noraise_futs _ _ _ _ _ R).
+          apply fail_all_all_done. exact I1. }
+        destruct (server_exit_enter c s rc X P R) as [E|[E _]]; rewrite E;
+          unfold entered, after_loop; cbn; rewrite I2, D.
+        -- split; [reflexivity|]. exists rc. split; [exact P|reflexivity].
+        -- split; [exact P|split; reflexivity].
   - destruct I2 as (P & Hh & D).
     destruct (server_exit_resume c s rc awaited X) as [E|[E _]]; rewrite E.
     + cbn. split; [reflexivity|]. exists rc. split; [exact P|exact Hh].
     + rewrite X. split; [exact P|split; [exact Hh|exact D]].
+  - unfold server_exit_task. rewrite X, X. exact I2.
   - unfold server_exit_task. rewrite X, X. exact I2.
 Qed.
 
@@ -724,12 +893,13 @@ Qed.
    the schedule, however late and whatever else happens, it has finished at the end and every
    future that existed when it was still waiting is done. *)
 Lemma exit_task_fires : forall c rest s rc,
+  fix_task c = true ->
   Inv c s -> proc s = Exited rc -> xtask s = XWaiting -> (needs c <= count_xtask rest)%nat ->
   xtask (run_from c s rest) = XDone /\
   forall i st, aget (futs s) i = Some st ->
     exists st', aget (futs (run_from c s rest)) i = Some st' /\ is_done st' = true.
 Proof.
-  intros c. induction rest as [|e r IH]; intros s rc I P X H.
+  intros c rest s rc T. revert s rc. induction rest as [|e r IH]; intros s rc I P X H.
   { unfold needs in H. cbn in H. destruct (hook c); inversion H. }
   rewrite run_from_cons.
   assert (Wait : e <> ServerExitTask -> (needs c <= count_xtask r)%nat ->
@@ -743,19 +913,21 @@ Proof.
     destruct (step_le c s e i st Hi) as [_ [st1 H1]]. apply (B2 i st1 H1). }
   destruct e; try (apply Wait; [discriminate|exact H]).
   cbn [step]. cbn [count_xtask is_xtask] in H.
-  assert (F : futs (server_exit_task c s) = fail_all rc (rf s) (futs s)).
-  { destruct (server_exit_enter c s rc X P) as [E|[E _]]; rewrite E; reflexivity. }
+  destruct (looped_fixed c s rc T) as [LF LR].
+  assert (F : futs (server_exit_task c s) = fail_all rc (own_ids (rf s)) (futs s)).
+  { destruct (server_exit_enter c s rc X P LR) as [E|[E _]]; rewrite E;
+      unfold entered, after_loop; cbn; exact LF. }
   split.
-  - destruct (server_exit_enter c s rc X P) as [E|[E N]].
+  - destruct (server_exit_enter c s rc X P LR) as [E|[E N]].
     + apply run_xtask_done. rewrite E. reflexivity.
-    + apply (hook_resumes c r _ rc (map fst (fail_all rc (rf s) (futs s)))).
+    + apply (hook_resumes c r _ rc (map fst (fst (fst (looped c s rc))))).
       * apply (inv_step c s ServerExitTask I).
       * rewrite E. reflexivity.
       * rewrite N in H. apply le_S_n, H.
   - intros i st Hi. destruct I as (I1 & _).
-    assert (D : mem i (rf s) = true \/ is_done st = true).
+    assert (D : mem i (own_ids (rf s)) = true \/ is_done st = true).
     { destruct st; try (right; reflexivity). left. apply I1, Hi. }
-    destruct (fail_all_done rc (rf s) (futs s) i st Hi D) as (st' & B1 & B2).
+    destruct (fail_all_done rc (own_ids (rf s)) (futs s) i st Hi D) as (st' & B1 & B2).
     exists st'. split; [|exact B2]. apply done_stable; [rewrite F; exact B1|exact B2].
 Qed.
 
@@ -794,13 +966,14 @@ Proof.
   assert (F1 : futs s1 = futs s0).
   { unfold s1. cbn [step]. unfold proc_exit. rewrite A. reflexivity. }
   assert (X0 : xtask s0 = XWaiting).
-  { destruct I0 as (_ & I2 & _). destruct (xtask s0); [reflexivity| |].
+  { destruct I0 as (_ & I2 & _). destruct (xtask s0); [reflexivity| | |].
     - destruct I2 as (Q & _). rewrite A in Q. discriminate.
-    - destruct I2 as (_ & rc' & Q & _). rewrite A in Q. discriminate. }
+    - destruct I2 as (_ & rc' & Q & _). rewrite A in Q. discriminate.
+    - destruct G as (_ & _ & T). rewrite T in I2. discriminate. }
   assert (X1 : xtask s1 = XWaiting).
   { unfold s1. rewrite step_xtask_other by discriminate. exact X0. }
   assert (I1 : Inv c s1) by (apply inv_step, I0).
-  destruct (exit_task_fires c rest s1 rc I1 P1 X1 HX) as [XD FD].
+  destruct (exit_task_fires c rest s1 rc (proj2 (proj2 G)) I1 P1 X1 HX) as [XD FD].
   assert (IS : Inv c s) by (rewrite Es; apply inv_run_from, I1).
   assert (PS : proc s = Exited rc) by (rewrite Es; apply run_proc_exited, P1).
   split; [|split; [|split]].
@@ -825,12 +998,13 @@ Fixpoint no_cancel_of (i : id) (evs : list event) : bool :=
   end.
 
 Lemma exit_fails_pending : forall c i rest s rc,
+  fix_task c = true ->
   Inv c s -> proc s = Exited rc -> xtask s = XWaiting ->
   aget (futs s) i = Some Pending -> no_reply_to i (pipe s) = true ->
   no_cancel_of i rest = true -> In ServerExitTask rest ->
   aget (futs (run_from c s rest)) i = Some (FailedExit rc).
 Proof.
-  intros c i. induction rest as [|e r IH]; intros s rc I P X Hi Q NC H; [contradiction|].
+  intros c i rest s rc T. revert s rc. induction rest as [|e r IH]; intros s rc I P X Hi Q NC H; [contradiction|].
   rewrite run_from_cons.
   assert (Wait : e <> ServerExitTask -> In ServerExitTask r -> no_cancel_of i r = true ->
             aget (futs (step c s e)) i = Some Pending -> no_reply_to i (pipe (step c s e)) = true ->
@@ -856,14 +1030,25 @@ Proof.
     + cbn [step]. rewrite A1. exact Hi.
     + cbn [step]. exact A3.
   - cbn [step].
-    assert (F : futs (server_exit_task c s) = fail_all rc (rf s) (futs s)).
-    { destruct (server_exit_enter c s rc X P) as [E|[E _]]; rewrite E; reflexivity. }
+    destruct (looped_fixed c s rc T) as [LF LR].
+    assert (F : futs (server_exit_task c s) = fail_all rc (own_ids (rf s)) (futs s)).
+    { destruct (server_exit_enter c s rc X P LR) as [E|[E _]]; rewrite E;
+        unfold entered, after_loop; cbn; exact LF. }
     apply done_stable; [|reflexivity]. rewrite F.
     apply fail_all_pending; [exact Hi|]. destruct I as (I1 & _). apply I1, Hi.
+  - destruct (handler_step_frame s j) as (A1 & _ & _ & _ & _ & _ & _ & A2).
+    apply Wait; [discriminate|destruct H as [H|H]; [discriminate|exact H]|exact NC| |].
+    + cbn [step]. rewrite A1. exact Hi.
+    + cbn [step]. rewrite A2. exact Q.
+  - destruct (handler_return_frame s j) as (A1 & _ & _ & _ & _ & _ & _ & A2).
+    apply Wait; [discriminate|destruct H as [H|H]; [discriminate|exact H]|exact NC| |].
+    + cbn [step]. rewrite A1. exact Hi.
+    + cbn [step]. rewrite A2. exact Q.
   - apply Wait; [discriminate|destruct H as [H|H]; [discriminate|exact H]|exact NC| |]; cbn; assumption.
 Qed.
 
 Theorem exit_fails_all_outstanding : forall c h rc t rest i,
+  fix_task c = true ->
   proc (run c h) = Alive ->
   aget (futs (run c h)) i = Some Pending ->        (* outstanding when the server dies *)
   no_reply_to i (pipe (run c h)) = true ->          (* no decodable answer to it is in flight *)
@@ -871,7 +1056,7 @@ Theorem exit_fails_all_outstanding : forall c h rc t rest i,
   In ServerExitTask rest ->
   aget (futs (run c (h ++ ProcExit rc t :: rest))) i = Some (FailedExit rc).
 Proof.
-  intros c h rc t rest i A Hi Q NC HX.
+  intros c h rc t rest i T A Hi Q NC HX.
   assert (I0 : Inv c (run c h)) by apply inv_run.
   unfold run at 1. rewrite run_from_app, run_from_cons. fold (run c h).
   assert (E : step c (run c h) (ProcExit rc t) =
@@ -880,9 +1065,10 @@ Proof.
   - apply inv_step, I0.
   - rewrite E. unfold proc_exit. rewrite A. reflexivity.
   - rewrite step_xtask_other by discriminate.
-    destruct I0 as (_ & I2 & _). destruct (xtask (run c h)); [reflexivity| |].
+    destruct I0 as (_ & I2 & _). destruct (xtask (run c h)); [reflexivity| | |].
     + destruct I2 as (Q' & _). rewrite A in Q'. discriminate.
     + destruct I2 as (_ & rc' & Q' & _). rewrite A in Q'. discriminate.
+    + rewrite T in I2. discriminate.
   - rewrite E. unfold proc_exit. rewrite A. exact Hi.
   - rewrite E. unfold proc_exit. rewrite A. exact Q.
 Qed.
